@@ -152,7 +152,8 @@ def gates(c, tier):
               "direct:unregistered-generic-control", "direct:unregistered-filter-protocolerror", "direct:unregistered-auth-protocolerror",
               "direct:duplicate-refused", "direct:builtin-clash-refused", "custom-bytes-in-sequence", "registration-in-sequence",
               "caller-buffer-shared-between-sessions", "direct:multi-control-messages", "direct:same-number-different-form", "direct:nested-custom-filter", "direct:deepcopy-independence", "fresh-process-reference-runs",
-              "direct:late-registration-decodes-custom", "direct:free-id-registrations", "direct:fresh-session-after-foreign-failure"):
+              "direct:late-registration-decodes-custom", "direct:free-id-registrations", "direct:fresh-session-after-foreign-failure", "direct:one-memoryview-two-sessions",
+              "direct:fresh-session-after-many-unknown-codes", "direct:fresh-session-after-dropped-sessions"):
         if c.get(k, 0) == 0:
             out.append(f"never observed {k}")
     for sub in range(8):
@@ -678,6 +679,66 @@ def direct_checks():
         vio.append(("other-sessions-failure-changes-fresh-session", f"a fresh server given a 120-level nested search returned {before} before, {after} after another session had failed on nested input with little stack headroom"))
     else:
         obs["direct:fresh-session-after-foreign-failure"] = 1
+    # one caller-owned memoryview handed to two sessions in turn (the first one keeps a partial message from it)
+    try:
+        whole = rfc4511.encode(("ExtendedRequest", 7, ("1.2.3", b"shared-view"), ()))
+        part = bytearray(whole[: len(whole) - 4])
+        view = memoryview(part)
+        s_a, s_b = sl.LDAPServer(), sl.LDAPServer()
+        r_a = s_a.receive(view)
+        r_b = s_b.receive(view)
+        r_a2 = s_a.receive(whole[len(whole) - 4:])
+        r_b2 = s_b.receive(whole[len(whole) - 4:])
+        if r_a or r_b or len(r_a2) != 1 or len(r_b2) != 1 or repr(r_a2) != repr(r_b2):
+            vio.append(("shared-caller-view-couples-sessions", f"two sessions fed from one memoryview: {r_a!r} {r_b!r} {r_a2!r} {r_b2!r}"))
+        else:
+            obs["direct:one-memoryview-two-sessions"] = 1
+    except (sl.LDAPError, ValueError) as e:
+        vio.append(("shared-caller-view-couples-sessions", f"the second session given the caller's memoryview failed: {type(e).__name__}: {e}"))
+    # what other sessions of the process have decoded before (thousands of distinct unknown result codes; many dropped
+    # sessions that died holding a partial message) changes nothing for a fresh session
+    try:
+        probe_codes = []
+        for code in range(3000, 3000 + (2600 if ORDER_FLIP == 0 else 1100)):
+            c9 = sl.LDAPClient()
+            i9 = c9.extended_request("1.2.3")
+            c9.data_to_send()
+            got9 = c9.receive(rfc4511.encode(("ExtendedResponse", i9, ((code, "", "", None), None, None), ())))[0]
+            if got9.result.result_code.value != code:
+                probe_codes.append((code, got9.result.result_code.value))
+                break
+        fresh = sl.LDAPClient()
+        i10 = fresh.extended_request("1.2.3")
+        fresh.data_to_send()
+        got10 = fresh.receive(rfc4511.encode(("ExtendedResponse", i10, ((987654, "", "", None), None, None), ())))[0]
+        if probe_codes or got10.result.result_code.value != 987654:
+            vio.append(("unknown-result-codes-seen-elsewhere-change-decoding", f"after other sessions decoded thousands of distinct unknown result codes: {probe_codes or [(987654, got10.result.result_code.value)]}"))
+        else:
+            obs["direct:fresh-session-after-many-unknown-codes"] = 1
+    except sl.LDAPError as e:
+        vio.append(("unknown-result-codes-seen-elsewhere-change-decoding", f"{type(e).__name__}: {e}"))
+    if ORDER_FLIP == 0:
+        try:
+            big = rfc4511.encode(("SearchResultEntry", 1, ("cn=big", (("jpegPhoto", (b"\x00" * (2 * 1024 * 1024),)),)), ()))
+            for _k in range(48):  # sessions that die holding ~2 MiB of an incomplete message each
+                dead = sl.LDAPClient()
+                dead.search_request("dc=x")
+                dead.data_to_send()
+                if dead.receive(big[:-10]):
+                    raise AssertionError("partial message returned")
+                del dead
+            alive = sl.LDAPClient()
+            alive.search_request("dc=x")
+            alive.data_to_send()
+            big8 = rfc4511.encode(("SearchResultEntry", 1, ("cn=big", (("jpegPhoto", (b"\x01" * (8 * 1024 * 1024),)),)), ()))
+            r1 = alive.receive(big8[: len(big8) // 2])
+            r2 = alive.receive(big8[len(big8) // 2:])
+            if r1 or len(r2) != 1:
+                vio.append(("dropped-sessions-limit-fresh-session", f"after 48 dropped sessions with ~2 MiB pending each, a fresh session returned {len(r1)}+{len(r2)} messages for an 8 MiB entry in two halves"))
+            else:
+                obs["direct:fresh-session-after-dropped-sessions"] = 1
+        except sl.LDAPError as e:
+            vio.append(("dropped-sessions-limit-fresh-session", f"after 48 dropped sessions with ~2 MiB pending each, a fresh session failed on an 8 MiB entry: {type(e).__name__}: {str(e)[:120]}"))
     # the custom filter nested under and / or / not
     regf = sl.LDAPServer()
     regf.register_filter(CustomFilter)
